@@ -5,6 +5,8 @@ CONSTANTS
  MaxLayer = 2
  MaxH = 1
  PushNilRoot = FALSE
+ MaxG = 0
+ Swallow = FALSE
  Stepwise = TRUE
 INVARIANTS EntryPrefix EntryDiffExact LinksWithin LinksComplete ReadBound SameNoLoads
 CHECK_DEADLOCK FALSE
